@@ -44,6 +44,9 @@ def gen_cases(rng, tier):
                 reads.append(rng.choice([30000, wrlib.BS]))
         cases.append(dict(mode='rt', ops=ops, level=rng.randrange(-1, 10), wc=rng.randrange(0, 5), rd=rng.randrange(0, 5),
                           reads=reads, delay=rng.choice([0, 0, rng.randrange(1, 1000)]), hbytes=True))
+        if i % 4 == 3 and wrlib.total_len(ops) <= wrlib.BS:
+            # gzip header settings of the Writer (Name/Comment in Latin-1, Extra subfields, ModTime, OS) are settings too
+            cases[-1]['hdr'] = wrlib.gen_hdr(rng)
     return cases
 
 
